@@ -2,7 +2,8 @@
    Model: coq/Model/MapStream.v (version Fixed = /repo after work/C04/fix-*.diff, Orig = as found).
    Spec:  coq/Spec/MapStreamSpec.v. *)
 From Coq Require Import ZArith List Lia.
-From EV Require Import Res Arr MapStream MapStreamSpec MapStreamBase MapStreamFixed MapStreamRefuted MapHelpers.
+From EV Require Import Res Arr MapStream MapStreamSpec MapStreamBase MapStreamFixed MapStreamRefuted MapHelpers
+  MapIndexedBase MapIndexedKernel MapIndexedDriver.
 Import ListNotations.
 Open Scope Z_scope.
 
@@ -20,6 +21,29 @@ Print Assumptions map_stream_correct.
 Example map_stream_correct_hyps :
   valid_mapb 6 INVALID_INDEX_32 [INVALID_INDEX_32; 0; 2; 2; INVALID_INDEX_32; 5; INVALID_INDEX_32] = true.
 Proof. reflexivity. Qed.
+
+(* ---- streaming, indexed-string sources: FULL in the property's regime ------------------------
+   For every well-formed indexed column (offsets start at 0, non-decreasing, end at |values|),
+   every marker, every chunk size >= 1 and value factor >= 0 such that every *mapped* entry fits
+   the value buffer of chunksize*value_factor bytes ("every value-buffer size that can hold the
+   longest entry"), every valid map: the repaired driver terminates with any fuel >=
+   |map|+|offsets|+1 and yields the prefix-sum offsets and concatenated bytes of the mapped
+   strings (empty string where the map holds the marker). *)
+Theorem indexed_stream_correct :
+  forall (d_idx d_val:list Z) (inv:Z) (m:list Z) (cs vf:Z) (fuel:nat),
+    wf_indexed d_idx d_val -> 1 <= cs -> 0 <= vf ->
+    valid_map (len d_idx - 1) inv m -> entries_fit d_idx d_val inv m (cs * vf) ->
+    (fuel >= length m + length d_idx + 1)%nat ->
+    ordered_map_valid_indexed_stream fuel Fixed d_idx d_val m inv cs vf = Ok (indexed_spec d_idx d_val inv m).
+Proof. exact indexed_stream_correct_top. Qed.
+Print Assumptions indexed_stream_correct.
+
+Example indexed_stream_correct_hyps :   (* 'a','bb','','dddd'; buffer 4 bytes; marker S64 *)
+  valid_mapb 4 INVALID_INDEX_64 [INVALID_INDEX_64; 0; 1; 1; INVALID_INDEX_64; 3] = true /\
+  ordered_map_valid_indexed_stream 20 Fixed [0;1;3;3;7] [97;98;98;100;100;100;100]
+     [INVALID_INDEX_64; 0; 1; 1; INVALID_INDEX_64; 3] INVALID_INDEX_64 2 2
+  = Ok ([0;0;1;3;5;5;9], [97;98;98;98;98;100;100;100;100]).
+Proof. split; vm_compute; reflexivity. Qed.
 
 (* ---- non-streaming helpers give the same answer: FULL ------------------------------------------
    (no ordering needed: valid entries only have to be in range) *)
